@@ -405,3 +405,58 @@ def register_inproc_actor(router, name, received):
     body.__name__ = name
     router.actor(name=name)(body)
     return dep
+
+
+class LazyHandle:
+    """A value that happens to be awaitable (a lazy client call an application hands around and awaits where it needs it)."""
+
+    def __init__(self, tag):
+        self.tag = tag
+        self.awaited = 0
+
+    def __await__(self):
+        self.awaited += 1
+        yield from ()
+        return f"resolved-{self.tag}"
+
+
+def register_awaitable_value_actors(router, received, made):
+    """Sync providers (a plain def, a lambda installed by override, one nested under a parent provider) whose return VALUE is
+    awaitable: the dependency parameter receives that very object."""
+
+    def give_handle():
+        h = LazyHandle("direct")
+        made["direct"] = h
+        return h
+
+    def give_child():
+        h = LazyHandle("child")
+        made["child"] = h
+        return h
+
+    def parent(c: Annotated[Any, Depends(give_child)]):
+        made["parent_saw"] = c
+        return ("parent", c)
+
+    placeholder = Depends(lambda: "placeholder")
+
+    async def takes_direct(v: Annotated[Any, Depends(give_handle)]):
+        received["direct"] = v
+
+    async def takes_nested(v: Annotated[Any, Depends(parent)]):
+        received["nested"] = v
+
+    async def takes_override(v: Annotated[Any, placeholder]):
+        received["override"] = v
+
+    router.actor(name="takes_direct")(takes_direct)
+    router.actor(name="takes_nested")(takes_nested)
+    router.actor(name="takes_override")(takes_override)
+
+    def replacement():
+        h = LazyHandle("override")
+        made["override"] = h
+        return h
+
+    placeholder.override(replacement)
+    return ["takes_direct", "takes_nested", "takes_override"]
